@@ -20,6 +20,10 @@ RULE = ("real-kernel part: /proc is routed through the shim unchanged (redirect 
         "vanish-from-j>i; after every vanish all operations are called again on the same object. "
         "non-trivial = the planned fault actually fired (access log proves it); distinct by (op, fixture, plan)")
 ASSUMPTIONS = [
+    "'well-formed value' is read, for the per-entry collectors guarded by the hit_enoent bookkeeping the property anchors name (threads, "
+    "open_files, net_connections), as: not silently cut short by the death of the process itself - everything was read before it died, or "
+    "NoSuchProcess; entries that vanish individually are skipped as documented. An empty threads() list is never well-formed",
+    "a second caller is modelled by running its call to completion, nested, at an access point of the first (no lock is involved in these paths)",
     "the kernel fails accesses to a vanished pid with ENOENT (open/listdir/stat/readlink) or ESRCH (read of an open file, syscalls)",
     "zombie fixture mirrors what a real zombie showed under root on this kernel (empty cmdline/smaps, ESRCH on environ/smaps_rollup, ENOENT on exe/cwd)",
     "'later queries raise NoSuchProcess' is asserted only for calls that perform >= 1 OS access (cached create_time()/exe() cannot know); is_running()->False, wait()->None, children()->[] are the documented non-raising answers",
@@ -78,6 +82,7 @@ EXACT_UNDER_FAULT = {"name", "status", "username", "create_time", "nice_get", "u
                      "ionice_get", "rlimit_get", "cpu_affinity_get", "cpu_num", "environ", "num_ctx_switches", "num_threads",
                      "cpu_times", "memory_info", "memory_full_info", "memory_percent", "memory_percent_uss", "ppid", "cmdline",
                      "cwd", "oneshot_multi"}
+COLLECTORS = {"threads", "open_files", "net_connections_all", "net_connections_inet"}
 NON_RAISING_AFTER_GONE = {"is_running", "wait0", "children", "children_rec", "repr", "process_iter_attrs"}
 TREE_OPS = {"children", "children_rec", "parent", "parents", "process_iter_attrs", "as_dict"}
 
@@ -161,6 +166,22 @@ def run_op(opname, fixture, plan, do_post=False):
                 if action == "vanish":
                     t.remove(target)
                     return None
+                if action == "othercall":
+                    # what another thread of the program might be doing right now: the same kind of call for everybody /
+                    # for another process, run to completion at this very point (no locks are involved, so a nested call
+                    # is the same interleaving)
+                    saved = dict(vk_.plan)
+                    vk_.plan.clear()
+                    try:
+                        ps.net_connections("all")
+                        ps.Process(60).threads()
+                        ps.Process(60).open_files()
+                    except Exception:  # noqa: BLE001
+                        pass
+                    finally:
+                        shift = 0
+                        vk_.plan.update(saved)
+                    return None
                 if action == "halfvanish":
                     if target in t.procs:
                         t.procs[target].half_gone = True
@@ -221,7 +242,7 @@ def judge(opname, fixture, plan, out, pid, clean_value, acc):
     viols = []
     kind, val = out["outcome"]
     actions = [p[1] for p in plan]
-    fired_actions = [f[1] for f in out["fired"]]
+    fired_actions = [f[1] for f in out["fired"] if f[1] != "othercall"]
     own_targets = all((len(p) < 3 or p[2] == pid) for p in plan)
     desc = f"op={opname} fixture={fixture} plan={plan} fired={out['fired']} -> {kind}:{str(val)[:200]}"
     if out["breaches"]:
@@ -278,6 +299,12 @@ def judge(opname, fixture, plan, out, pid, clean_value, acc):
             # every process has at least one thread: an empty list is not a well-formed answer (it is what is left when
             # the last thread's record could not be read and nothing re-checked that the process is still there)
             viols.append(("malformed_value:threads:empty_list", desc + f" clean={str(clean_value)[:120]}"))
+        elif (clean_value is not None and opname in COLLECTORS and fired_actions == ["vanish"] and own_targets
+              and repr(val) != repr(clean_value)):
+            # the per-entry collectors skip entries that vanish and then re-check that the process itself is still there
+            # (the hit_enoent bookkeeping named in the property's anchors): a list silently cut short by the death of the
+            # *process* is not a well-formed answer for it - either everything was read before it died, or NoSuchProcess
+            viols.append((f"partial_value_for_vanished_process:{opname}", desc + f" clean={str(clean_value)[:200]}"))
         elif (clean_value is not None and opname in EXACT_UNDER_FAULT and fired_actions and own_targets
               and all(a in ("EACCES", "EPERM", "vanish") for a in fired_actions)):
             # a fault that is survived (documented fall-back, or it struck after the data was read) must not change
@@ -335,6 +362,12 @@ def cases_for(opname, fixture, tier):
                 for rel in (60, 40):
                     if faultable(kind, path, rel):
                         plans.append([(k, "EACCES", rel)])
+        if opname in COLLECTORS:
+            # the process dies at i, and at a later point j another call of the same family runs to completion in between
+            step = 1 if tier == "thorough" else 3
+            for i in range(n):
+                for j in sorted(set(range(i + 1, n, step)) | ({n - 1} if n - 1 > i else set())):
+                    plans.append([(i, "vanish"), (j, "othercall")])
         pair_own = own if (tier == "thorough" or len(own) <= 12) else own[:12]
         for i in pair_own:
             for j in range(i + 1, n if (tier == "thorough" or n <= 14) else min(n, i + 6)):
